@@ -503,13 +503,46 @@ fn dfs(start: usize, chain: &Chain, bytes: &[u8], prefix: &mut Vec<Op>, depth: u
     }
 }
 
+/// Build start state `start`; a panic while doing so (in-range operations only) is a violation.
+fn build_start(start: usize, acc: &mut Acc) -> Option<(Chain, Vec<u8>)> {
+    match catch_unwind(|| start_state(start)) {
+        Ok(x) => Some(x),
+        Err(e) => {
+            acc.v("chain.panic.prebuilt".into(), format!("building pre-built chain #{start} with in-range operations panicked: {}", panic_text(&*e)), 0, || seq_json(start, &[]));
+            None
+        }
+    }
+}
+
+/// A pre-built chain must already agree with its bytes; `true` (and a violation) if it does not.
+fn check_start(start: usize, chain: &Chain, bytes: &[u8], acc: &mut Acc) -> bool {
+    acc.nodes += 1;
+    let bad = match catch_unwind(AssertUnwindSafe(|| observe(chain, bytes))) {
+        Ok(None) => return false,
+        Ok(Some((kind, d))) => (kind.to_string(), d),
+        Err(e) => ("invariant-panic".to_string(), format!("an accessor panics: {}", panic_text(&*e))),
+    };
+    acc.v(
+        format!("chain.{}.prebuilt", bad.0),
+        format!("pre-built chain #{start} (pushes, one in-range advance/truncate) holding {}: {}", hex(bytes), bad.1),
+        0,
+        || seq_json(start, &[]),
+    );
+    true
+}
+
 /// Replay one recorded sequence; returns the observation text and violations.
 fn replay_chain(v: &Value) -> (String, Acc) {
     let start = v["start"].as_u64().expect("replay: start") as usize;
     let ops: Vec<Op> = v["ops"].as_array().expect("replay: ops").iter().map(Op::from_json).collect();
     let mut acc = Acc::default();
-    let (mut chain, mut bytes) = start_state(start);
+    let Some((mut chain, mut bytes)) = build_start(start, &mut acc) else {
+        return ("building the start state panicked".into(), acc);
+    };
     let mut log = String::new();
+    if check_start(start, &chain, &bytes, &mut acc) {
+        return ("start state inconsistent".into(), acc);
+    }
     for (k, &op) in ops.iter().enumerate() {
         match step(&chain, &bytes, op, k, &mut acc) {
             Step::Go(c, b) => {
@@ -812,9 +845,19 @@ fn check_cow_pair(a: &[u8], b: &[u8], acc: &mut Acc) {
 
 // ---------------------------------------------------------------- driver
 
+#[path = "c19_backoff.rs"]
+mod c19_backoff_tmp;
 pub fn run(args: &Args) -> Report {
     crate::sim::install_quiet_panic_hook();
     let mut rep = Report::new("C20", &args.tier, "enum", "exploration");
+    if std::env::var_os("B1_BACKOFF").is_some() {
+        if let Some(v) = args.replay_json() {
+            c19_backoff_tmp::replay_backoff(&mut rep, &v);
+        } else {
+            c19_backoff_tmp::run_backoff(&mut rep, args.thorough());
+        }
+        return rep;
+    }
     let thorough = args.thorough();
     let threads = args.threads.max(1);
     rep.extra.insert("build_profile".into(), json!(if cfg!(debug_assertions) { "checked" } else { "release" }));
@@ -871,11 +914,10 @@ pub fn run(args: &Args) -> Report {
     let mut items: Vec<Item> = Vec::new();
     for start in 0..N_STARTS {
         let depth = if start == 0 { depth_empty } else { depth_built };
-        let (chain, bytes) = start_state(start);
-        // the start state itself must be sound
-        if let Some((kind, d)) = observe(&chain, &bytes) {
-            rep.machinery_error = Some(format!("start state {start} is already inconsistent ({kind}: {d})"));
-            return rep;
+        let Some((chain, bytes)) = build_start(start, &mut total) else { continue };
+        // the start state itself (built with in-range operations only) must be sound
+        if check_start(start, &chain, &bytes, &mut total) {
+            continue;
         }
         fn expand(start: usize, chain: &Chain, bytes: &[u8], prefix: &mut Vec<Op>, depth: usize, split: usize, items: &mut Vec<Item>, acc: &mut Acc) {
             if prefix.len() >= depth {
